@@ -202,3 +202,98 @@ theorem keysOf_ne_nil (d : MDoc) : ∀ (fs : List String), keysOf d fs ≠ []
       | cons k ks => simp [List.flatMap_cons, hk]
 
 end Defra.IndexMulti
+
+namespace Defra.IndexMulti
+open Defra Defra.Query
+
+/-! ### the index path equals the scan path -/
+
+theorem find_of_mem_nodup (docs : List MDoc) (hn : (docs.map (·.k)).Nodup) (d : MDoc) (hd : d ∈ docs) :
+    docs.find? (·.k == d.k) = some d := by
+  induction docs with
+  | nil => cases hd
+  | cons x t ih =>
+    simp only [List.map_cons, List.nodup_cons] at hn
+    simp only [List.find?_cons]
+    rcases List.mem_cons.mp hd with rfl | hd
+    · simp
+    · have hne : (x.k == d.k) = false := by
+        have : x.k ≠ d.k := fun h => hn.1 (by rw [h]; exact List.mem_map.mpr ⟨d, hd, rfl⟩)
+        simpa using this
+      simp only [hne]
+      exact ih hn.2 hd
+
+theorem mem_entries (fields : List String) (docs : List MDoc) (key : List V) (k : Nat) :
+    (key, k) ∈ entries fields docs ↔ ∃ d ∈ docs, d.k = k ∧ key ∈ keysOf d fields := by
+  unfold entries
+  simp only [List.mem_flatMap, List.mem_map, Prod.mk.injEq]
+  constructor
+  · rintro ⟨d, hd, key', hk, rfl, rfl⟩; exact ⟨d, hd, rfl, hk⟩
+  · rintro ⟨d, hd, rfl, hk⟩; exact ⟨d, hd, key, hk, rfl, rfl⟩
+
+/-- **The index path returns what the scan returns.** For any index (any list of fields, arrays included), any
+    filter and any candidate test that no matching document fails on all of its keys (the completeness of the key
+    range and matchers derived from the filter): the de-duplicated, re-filtered index fetch yields exactly the
+    documents the plain scan yields, each once. -/
+theorem indexFetch_perm_eval (fields : List String) (cand : List V → Bool) (f : Filter) (docs : List MDoc)
+    (hn : (docs.map (·.k)).Nodup)
+    (hcomplete : ∀ d ∈ docs, satisfies f d = true → ∃ key ∈ keysOf d fields, cand key = true) :
+    (indexFetch fields cand f docs).Perm (eval f docs) := by
+  unfold indexFetch eval
+  apply List.Perm.map
+  -- both sides are duplicate-free lists of documents with the same members
+  have hdn : docs.Nodup := by
+    clear hcomplete
+    induction docs with
+    | nil => exact List.nodup_nil
+    | cons x t ih =>
+      simp only [List.map_cons, List.nodup_cons] at hn
+      exact List.nodup_cons.mpr ⟨fun hx => hn.1 (List.mem_map.mpr ⟨x, hx, rfl⟩), ih hn.2⟩
+  have hidsn0 : (dedupSeen [] (((entries fields docs).filter (fun e => cand e.1)).map (·.2))).Nodup :=
+    nodup_dedupSeen _ _
+  have hidmem0 : ∀ k, k ∈ dedupSeen [] (((entries fields docs).filter (fun e => cand e.1)).map (·.2)) ↔
+      ∃ d ∈ docs, d.k = k ∧ ∃ key ∈ keysOf d fields, cand key = true := by
+    intro k
+    rw [mem_dedupSeen]
+    simp only [List.not_mem_nil, not_false_eq_true, and_true, List.mem_map, List.mem_filter]
+    constructor
+    · rintro ⟨⟨key, k'⟩, ⟨hmem, hc⟩, rfl⟩
+      obtain ⟨d, hd, hk, hkey⟩ := (mem_entries fields docs key k').mp hmem
+      exact ⟨d, hd, hk, key, hkey, hc⟩
+    · rintro ⟨d, hd, hk, key, hkey, hc⟩
+      exact ⟨(key, k), ⟨(mem_entries fields docs key k).mpr ⟨d, hd, hk, hkey⟩, hc⟩, rfl⟩
+  generalize dedupSeen [] (((entries fields docs).filter (fun e => cand e.1)).map (·.2)) = ids at hidsn0 hidmem0 ⊢
+  have hidsn : ids.Nodup := hidsn0
+  have hidmem := hidmem0
+  have hlookn : (ids.filterMap (fun k => docs.find? (·.k == k))).Nodup := by
+    have : ((ids.filterMap (fun k => docs.find? (·.k == k))).map (·.k)).Nodup := by
+      have hsub : ((ids.filterMap (fun k => docs.find? (·.k == k))).map (·.k)).Sublist ids := by
+        clear hidsn hidmem hidsn0 hidmem0
+        induction ids with
+        | nil => exact List.Sublist.slnil
+        | cons k t ih =>
+          simp only [List.filterMap_cons]
+          cases hf : docs.find? (·.k == k) with
+          | none => exact List.Sublist.cons _ ih
+          | some d =>
+            have hdk : d.k = k := by simpa using List.find?_some hf
+            simp only [List.map_cons, hdk]
+            exact List.Sublist.cons₂ _ ih
+      exact hsub.nodup hidsn
+    clear hidmem hidsn hidsn0 hidmem0
+    generalize ids.filterMap (fun k => docs.find? (·.k == k)) = l at this
+    induction l with
+    | nil => exact List.nodup_nil
+    | cons x t ih =>
+      simp only [List.map_cons, List.nodup_cons] at this
+      exact List.nodup_cons.mpr ⟨fun hx => this.1 (List.mem_map.mpr ⟨x, hx, rfl⟩), ih this.2⟩
+  apply (List.perm_ext_iff_of_nodup (hlookn.filter _) (hdn.filter _)).mpr
+  intro d
+  simp only [List.mem_filter, List.mem_filterMap]
+  constructor
+  · rintro ⟨⟨k, _, hf⟩, hs⟩
+    exact ⟨List.mem_of_find?_eq_some hf, hs⟩
+  · rintro ⟨hd, hs⟩
+    refine ⟨⟨d.k, (hidmem d.k).mpr ⟨d, hd, rfl, hcomplete d hd hs⟩, find_of_mem_nodup docs hn d hd⟩, hs⟩
+
+end Defra.IndexMulti
